@@ -34,9 +34,10 @@ CONT = {
     "arc":   ("i32", "let v = Arc::new(xs.to_vec());", "&v"),
     "opt":   ("Option<i32>", "let base: Vec<Option<i32>> = xs.to_vec(); let v = base.opt();", "&v"),
 }
-ENUM = ("deq0", "deq1", "deq2", "deq3", "nd", "ndv1", "nd2", "nd3", "ndrev", "ndm2")   # slice bounds enumerated, not symbolic
+ENUM = ()   # containers whose slice bounds are enumerated instead of symbolic (measured: no gain; unused)
+HEAVY = ("deq0", "deq1", "nd", "ndv1", "nd2", "ndrev")
 QUICK = ["vec", "arr", "slc", "deq0", "deq1", "nd", "ndv1", "nd2", "ndrev", "arc", "opt"]
-THOROUGH_ONLY = {"deq2": [[3], [4]], "deq3": [[4]], "nd3": [[0, 1, 2], [3], [4]], "ndm2": [[0, 1, 2], [3], [4]]}
+THOROUGH_ONLY = {"deq2": [[3], [4]], "deq3": [[4]], "nd3": [[0], [1], [2], [3], [4]], "ndm2": [[0], [1], [2], [3], [4]]}
 
 
 def tas(be, n):
@@ -101,17 +102,19 @@ def tas_only(be, ns, thorough):
 
 
 # (b): name -> (generic fn, quick N, thorough N, unwind slack)
+# name, generic fn, lengths in the quick tier, lengths in the thorough tier only (measured cost decides)
 E2E = [
-    ("tsvsum_vec_deq", "e2e_tsvsum_vec_deq", 2, 4),
-    ("tsvsum_vec_ndrev", "e2e_tsvsum_vec_ndrev", 2, 4),
-    ("tsvmin_vec_deq", "e2e_tsvmin_vec_deq", 2, 4),
-    ("vshift_vec_deq", "e2e_vshift_vec_deq", 2, 4),
-    ("vshift_vec_nd2", "e2e_vshift_vec_nd2", 2, 4),
-    ("agg_all", "e2e_agg", 2, 4),
-    ("out_tsvsum_vec", "e2e_out_tsvsum_vec", 2, 4),
-    ("out_tsvsum_deq", "e2e_out_tsvsum_deq", 2, 4),
-    ("out_tsvsum_nd", "e2e_out_tsvsum_nd", 2, 4),
-    ("out_apply", "e2e_out_apply", 2, 4),
+    ("tsvsum_vec_deq", "e2e_tsvsum_vec_deq", [2], [3, 4]),
+    ("tsvsum_vec_ndrev", "e2e_tsvsum_vec_ndrev", [2], [3, 4]),
+    ("tsvmin_vec_deq", "e2e_tsvmin_vec_deq", [], [2, 3]),
+    ("vshift_vec_deq", "e2e_vshift_vec_deq", [2], [3]),
+    ("vshift_vec_nd", "e2e_vshift_vec_nd", [2], [3]),
+    ("agg_arr_deq_ndrev", "e2e_agg", [2], [3, 4]),
+    ("agg_nd2_arc_nd", "e2e_agg2", [], [2, 3]),
+    ("out_tsvsum_vec", "e2e_out_tsvsum_vec", [2], [3, 4]),
+    ("out_tsvsum_deq", "e2e_out_tsvsum_deq", [2], [3]),
+    ("out_tsvsum_nd", "e2e_out_tsvsum_nd", [2], [3]),
+    ("out_apply", "e2e_out_apply", [], [2, 3]),
 ]
 
 
@@ -127,8 +130,14 @@ def e2e(name, fn, n, thorough):
 def main():
     out = ["// @generated by /verif/tools/gen_c07.py — do not edit by hand\n"]
     for be in QUICK:
-        out.append(acc(be, [0, 1, 2], False))
-        out.append(acc(be, [3], False))
+        if be in HEAVY:
+            # several ndarray / VecDeque instances in one harness cost CBMC more than the sum of the parts
+            # (every pointer dereference case-splits over all heap objects): one harness per length
+            for n in (0, 1, 2, 3):
+                out.append(acc(be, [n], be == "ndv1" and n < 3))   # step-1 view: same impl macro as Array1
+        else:
+            out.append(acc(be, [0, 1, 2], False))
+            out.append(acc(be, [3], False))
         out.append(acc(be, [4], True))
     for be, groups in THOROUGH_ONLY.items():
         for g in groups:
@@ -137,9 +146,11 @@ def main():
     out.append(tas_only("ndrev", [2], False))
     out.append(tas_only("ndrev", [3], True))
     out.append(tas_only("ndrev", [4], True))
-    for name, fn, nq, nt in E2E:
-        for n in (2, 3, 4):
-            out.append(e2e(name, fn, n, n > 3))   # TEMP: measure n2 and n3
+    for name, fn, q, t in E2E:
+        for n in q:
+            out.append(e2e(name, fn, n, False))
+        for n in t:
+            out.append(e2e(name, fn, n, True))
     open(OUT, "w").write("\n\n".join(out) + "\n")
     print("wrote", OUT, len(out) - 1, "harnesses")
 
